@@ -167,6 +167,19 @@ func minPoolInput(rIn, rOut, out *big.Int) *big.Int {
 	return x
 }
 
+// poolSellQuote is the amount of the other coin that selling x into a pool yields:
+// rOut − ⌊rIn·rOut·10^6 / (((x + rIn)·1000 − 2x)·1000)⌋ − 1 (0.2 % fee; nil when nothing comes out).
+func poolSellQuote(rIn, rOut, x *big.Int) *big.Int {
+	k := new(big.Int).Mul(new(big.Int).Mul(rIn, rOut), big.NewInt(1000000))
+	adj := new(big.Int).Sub(new(big.Int).Mul(new(big.Int).Add(x, rIn), big.NewInt(1000)), new(big.Int).Mul(x, big.NewInt(2)))
+	out := new(big.Int).Sub(rOut, new(big.Int).Quo(k, new(big.Int).Mul(adj, big.NewInt(1000))))
+	out.Sub(out, big.NewInt(1))
+	if out.Sign() != 1 {
+		return nil
+	}
+	return out
+}
+
 func (Fees) Check(t *explore.Transition) ([]V, bool) {
 	r := t.LastTx()
 	if r == nil || r.Resp.Code != 0 || t.Parent == nil || t.Parent.Final() == nil || t.Cur.Final() == nil || t.Cur.Fault != nil {
@@ -178,9 +191,6 @@ func (Fees) Check(t *explore.Transition) ([]V, bool) {
 	}
 	par := t.Parent.Final()
 	tb := tableOf(&par.Export.Commission)
-	if par.Export.Commission.Coin != 0 {
-		return nil, false // custom-coin price tables are judged by FeesCustomTable
-	}
 	tp, ticker, ok := typePrice(tb, inf.Tx)
 	ty := inf.Type.String()
 	if !ok {
@@ -196,6 +206,39 @@ func (Fees) Check(t *explore.Transition) ([]V, bool) {
 	if v, ok := tagOf(r, "tx.commission_price"); ok && v != price.String() {
 		out = append(out, V{Signature: "price-table|" + ty, Detail: fmt.Sprintf("tx %q: the node prices it at %s, the table says %s = %s x (%s + %d bytes x %s)", r.T.Name, v, price, gp, tp, bytes, tb["PayloadByte"])})
 		price = obs.Num(v)
+	}
+	// (0') a table denominated in a custom coin: the whole price (gas price included) is what
+	// selling that many table coins into the coin's BIP pool yields
+	if tc := par.Export.Commission.Coin; tc != 0 {
+		if burned.Sign() != 0 {
+			return out, true // ticker fees under a custom-coin table are not modelled
+		}
+		var base *big.Int
+		for _, p := range par.Export.Pools {
+			var rIn, rOut *big.Int
+			if p.Coin0 == 0 && p.Coin1 == tc {
+				rOut, rIn = obs.Num(p.Reserve0), obs.Num(p.Reserve1)
+			} else if p.Coin1 == 0 && p.Coin0 == tc {
+				rOut, rIn = obs.Num(p.Reserve1), obs.Num(p.Reserve0)
+			} else {
+				continue
+			}
+			if len(p.Orders) > 0 {
+				return out, true // the conversion walks the order book: not modelled
+			}
+			// a sale through the pool first burns 0.1 % of the input, rounded up
+			burn, m := new(big.Int).QuoRem(price, big.NewInt(1000), new(big.Int))
+			if m.Sign() != 0 {
+				burn.Add(burn, big.NewInt(1))
+			}
+			base = poolSellQuote(rIn, rOut, new(big.Int).Sub(price, burn))
+		}
+		if base == nil {
+			out = append(out, V{Signature: "custom-table-without-pool|" + ty, Detail: fmt.Sprintf("tx %q accepted although the price table coin %d cannot be converted", r.T.Name, tc)})
+			return out, true
+		}
+		ty = "custom-table|" + ty
+		price = base
 	}
 	// (a) the reward pool receives the base value of the commission minus the ticker fee
 	dRew := new(big.Int).Sub(r.RewardsAfter, r.RewardsBefore)
